@@ -62,8 +62,70 @@ def _run_sequence(strings, clocks):
     return out
 
 
+def _run_server_sequence(mtimes, nows):
+    """the server half: `Server.build_list_mtime(st_mtime)` as the LIST worker calls it (now=None: `time.time()`), at
+    successive clock values in one process; returns [(now, mtime, got, want_with_explicit_now)]"""
+    import aioftp
+    import aioftp.server as AS
+
+    real = AS.time
+
+    class _TimeShim:
+        def __init__(self):
+            self.current = 0.0
+
+        def time(self):
+            return self.current
+
+        def __getattr__(self, name):
+            return getattr(real, name)
+
+    shim = _TimeShim()
+    out = []
+    AS.time = shim
+    try:
+        for now in nows:
+            shim.current = now
+            for m in mtimes:
+                got = aioftp.Server.build_list_mtime(m)
+                want = aioftp.Server.build_list_mtime(m, now)
+                out.append((now, m, got, want))
+    finally:
+        AS.time = real
+    return out
+
+
+def run_server(ctx, res):
+    import time as _t
+
+    rng = ctx.rng
+    base = 1_700_000_000
+    half = 15778476
+    seqs = []
+    # the same modification time looked at before and after it crosses a boundary of the "recent" window
+    for m in (base, base + 86400 * 30, base - 86400 * 100):
+        seqs.append(([m], [m - 86400, m + 60, m + half - 86400, m + half + 86400, m + 3 * half, m + 60]))
+    for _ in range(ctx.pick(6, 60)):
+        ms = [base + rng.randrange(-2 * half, 2 * half) for _ in range(3)]
+        ns = [base + rng.randrange(-3 * half, 3 * half) for _ in range(6)]
+        seqs.append((ms, ns))
+    for mtimes, nows in seqs:
+        for now, m, got, want in _run_server_sequence(mtimes, nows):
+            res.cases += 1
+            res.count("server_wall_clock_formats")
+            res.distinct.add(("server-clock", now, m))
+            if got != want:
+                res.oracle_failures.append({
+                    "input": {"kind": "server-wall-clock-sequence", "mtimes": list(mtimes), "nows": list(nows), "at": now, "mtime": m},
+                    "what": "build_list_mtime(%d) with the clock at %d gave %r; with now passed explicitly %r: the result depends on an earlier call in the same process" % (m, now, got, want),
+                    "signature": "C07:ls-date-depends-on-earlier-calls",
+                })
+                break
+
+
 def run(ctx):
     res = Result()
+    run_server(ctx, res)
     rng = ctx.rng
     seqs = [(STRINGS, CLOCKS)]
     for _ in range(ctx.pick(6, 60)):
@@ -87,6 +149,12 @@ def run(ctx):
 
 
 def replay(inp):
+    if inp.get("kind") == "server-wall-clock-sequence":
+        rows = _run_server_sequence(inp["mtimes"], inp["nows"])
+        bad = [r for r in rows if r[2] != r[3]]
+        for r in bad[:5]:
+            print(r)
+        return bool(bad)
     rows = _run_sequence(inp["strings"], [tuple(x) for x in inp["clocks"]])
     bad = [r for r in rows if r[2] != r[3]]
     for r in bad[:5]:
